@@ -77,7 +77,17 @@ func cmdFunc(mode string, args []string) {
 				fn.WriteTo(os.Stdout)
 			}
 		}
-		fr := w.VerifyFunc(key, c)
+		var fr *FuncResult
+		if i := strings.Index(key, "lemma:"); i >= 0 {
+			lm := w.findLemma(key[i+6:])
+			if lm == nil {
+				fmt.Println("no such lemma", key)
+				continue
+			}
+			fr = w.VerifyLemma(lm)
+		} else {
+			fr = w.VerifyFunc(key, c)
+		}
 		for _, f := range fr.Fatal {
 			fmt.Println("FATAL:", f)
 		}
